@@ -29,7 +29,7 @@ Theorem partition3_nonbool_refuted :
 Proof. exact partition3_nonbool_refuted_l. Qed.
 Print Assumptions partition3_nonbool_refuted.
 
-Theorem partition3_stream : forall fa envf p cs, sel_free cs = true -> bpred p = true ->
+Theorem partition3_stream : forall fa envf p cs, bpred p = true ->
   Permutation (rows_of cs)
     (rows_of (drain_filter fa envf p cs) ++ rows_of (drain_filter fa envf (EUn Not p) cs)
      ++ rows_of (drain_filter fa envf (EUn IsNull p) cs)).
@@ -54,31 +54,40 @@ Proof. exact arith_pre_refuted_l. Qed.
 Print Assumptions arithmetic_pre_refuted.
 
 (** ** Filter *)
-Theorem filter_spec_phys : forall fa envf p cs,
-  rows_of (drain_filter fa envf p cs) = filter (row_passes fa envf p) (phys_rows cs).
-Proof. exact filter_spec_phys_l. Qed.
-Print Assumptions filter_spec_phys.
-
-Theorem filter_spec : forall fa envf p cs, sel_free cs = true ->
+(** the operator as it is now (df57ccb): for EVERY input, selection vectors included *)
+Theorem filter_spec : forall fa envf p cs,
   rows_of (drain_filter fa envf p cs) = filter (row_passes fa envf p) (rows_of cs).
 Proof. exact filter_spec_l. Qed.
 Print Assumptions filter_spec.
 
-Theorem filter_spec_refuted : exists fa p cs, Forall chunk_wf cs /\
-  rows_of (drain_filter fa row_env p cs) <> filter (row_passes fa row_env p) (rows_of cs).
-Proof. exact filter_spec_refuted_l. Qed.
-Print Assumptions filter_spec_refuted.
+Theorem stacked_filter : forall fa envf p1 p2 cs,
+  rows_of (drain_filter fa envf p2 (drain_filter fa envf p1 cs))
+  = filter (row_passes fa envf p2) (filter (row_passes fa envf p1) (rows_of cs)).
+Proof. exact stacked_filter_l. Qed.
+Print Assumptions stacked_filter.
 
-Theorem stacked_filter_refuted : exists fa p1 p2 rows,
-  rows_of (drain_filter fa row_env p2 (drain_filter fa row_env p1 (scan_chunks rows)))
+Theorem filter_preserves_shape : forall fa envf p cs,
+  (Forall chunk_wf cs -> Forall chunk_wf (drain_filter fa envf p cs))
+  /\ (Forall small_chunk cs -> Forall small_chunk (drain_filter fa envf p cs)).
+Proof. intros; split; [apply filter_out_wf|apply filter_out_small]. Qed.
+Print Assumptions filter_preserves_shape.
+
+(** the operator before df57ccb (finding C11-K1, fixed) *)
+Theorem filter_pre_spec_phys : forall fa envf p cs,
+  rows_of (drain_filter_pre fa envf p cs) = filter (row_passes fa envf p) (phys_rows cs).
+Proof. exact filter_pre_spec_phys_l. Qed.
+Print Assumptions filter_pre_spec_phys.
+
+Theorem filter_pre_refuted : exists fa p cs, Forall chunk_wf cs /\
+  rows_of (drain_filter_pre fa row_env p cs) <> filter (row_passes fa row_env p) (rows_of cs).
+Proof. exact filter_pre_refuted_l. Qed.
+Print Assumptions filter_pre_refuted.
+
+Theorem stacked_filter_pre_refuted : exists fa p1 p2 rows,
+  rows_of (drain_filter_pre fa row_env p2 (drain_filter_pre fa row_env p1 (scan_chunks rows)))
   <> filter (row_passes fa row_env p2) (filter (row_passes fa row_env p1) rows).
-Proof. exact stacked_filter_refuted_l. Qed.
-Print Assumptions stacked_filter_refuted.
-
-Theorem filter_fixed_spec : forall fa envf p cs,
-  rows_of (drain_filter_fixed fa envf p cs) = filter (row_passes fa envf p) (rows_of cs).
-Proof. exact filter_fixed_spec_l. Qed.
-Print Assumptions filter_fixed_spec.
+Proof. exact stacked_filter_pre_refuted_l. Qed.
+Print Assumptions stacked_filter_pre_refuted.
 
 (** ** Limit / Skip *)
 Theorem limit_spec : forall n cs, Forall chunk_wf cs ->
